@@ -75,11 +75,13 @@ def qof(v):
         return Fraction(v)
     if isinstance(v, Num):
         return v.q
+    if isinstance(v, Fraction):
+        return v
     raise TypeError("not numeric: %r" % (v,))
 
 
 def is_num(v):
-    return (isinstance(v, int) and not isinstance(v, bool)) or isinstance(v, Num)
+    return (isinstance(v, int) and not isinstance(v, bool)) or isinstance(v, (Num, Fraction))
 
 
 class TDict(dict):
